@@ -44,7 +44,7 @@ class Forcer:
             self._undo.append((obj, name, obj.__dict__[name]))
             setattr(obj, name, new)
 
-        def forced(probability_map, shots):
+        def forced(probability_map, shots, rng=None):
             if shots is None:
                 return {s: p for s, p in probability_map.items() if not np.isclose(p, 0.0)}
             nmeas = len(next(iter(probability_map.keys())))
@@ -216,6 +216,8 @@ def shape_supported(shape, d):
             return False
         if any(m >= d or m < 0 for m in modes):
             return False
+        if s["kind"] != "prep" and not modes and not active:
+            return False      # an instruction on "all active modes" when none is left: no state to act on (outside the model)
         if s["kind"] == "meas":
             measured = modes if modes else list(active)
             if any(m not in active for m in measured):
